@@ -41,6 +41,9 @@ CLAIMED = {
             "Static decision of C46's own mechanism, 'absence of shared mutable static state across System/Integrator instances' (DESIGN section 3): every static-storage variable in the libraries and repository headers is "
             "immutable by type, never written by any analysed function, a thread-local accumulator zeroed by its protocol, or in the reviewed table; a new or newly written static, a registry class gaining state, "
             "or a broken side condition is reported. Quick tier: the anchored directories; thorough: all 262 library units and every repository header. Bit-identity of actual runs is not decided."),
+    "C32": ("MUSTCHECK (end-of-input test on every accepting path after a stream extraction, through helper summaries), TABLE (non-finite tokens written vs read), AGREE (read/write overload sets and element order)",
+            "Static decision of the structural clauses of C32 (DESIGN section 3): every text->value conversion reports success only after checking that the whole string was consumed; the non-finite tokens written are among "
+            "those the readers accept; every writable type is readable (tabled exceptions) with the same sub-object order. Digit-exact float round trips, XML escaping and TinyXML parsing are not decided."),
 }
 NA = {
  "C01": "numerical identity between O(n) recursions; no clause is visible in the shape of the code",
